@@ -159,6 +159,11 @@ class Check(PropCheck):
                  '<details open>y</details>', '<!DOCTYPE html><p>a</p><p>b</p>', 'R&D', '<a>&', '<script>x', 'x<script>y',
                  '<br/><br/>', '\x00', '<! doctype html><a>', 'hello<!DOCTYPE html><p>x</p>', '<p>a</p>\n<!DOCTYPE html>\n<p>b</p>',
                  ' ' * 60 + 'x<a>', '\n' * 30 + ' ' * 30 + '<a></a><b></b>', '<div id>x</div>', '<span id/>', '<a \x00=1>', '<a b=">', "<a b='>", '<a/b>', '<a//>', '<p/ >', '</ a>', '<A B=C D>']
+        # nesting depths around powers of two and other round numbers (a table, a counter or a limit indexed by the depth)
+        for depth in (8, 9, 10, 15, 16, 17, 20, 31, 32, 33, 34, 50, 63, 64, 65, 66):
+            fixed.append('<a>' * depth)
+            if depth <= 34:
+                fixed.append('<i>' * depth + 'x' + '</i>' * (depth // 2))
         for t in fixed:
             for cls in CLASSES:
                 yield Case({'text': t, 'cls': cls, 'cfg': {}, 'entry': 'parseStr'}, 'corpus-fixed')
